@@ -35,16 +35,36 @@ def run(chk):
         mode = modes[i % len(modes)]
         w, mu, var, s = gen.gen_gmm(r, C, D, scale)
         thr = r.choice([None, 1e-3 * float(s.min()) ** 2, list(0.5 * s ** 2)])
-        m = make_gmm(w, mu, var, thr=thr)
+        tiny = None
+        if i % 5 == 3 and C >= 2:
+            # a strictly positive but tiny weight (all positive weights are in the quantifier)
+            tiny = r.randrange(C)
+            w = np.array(w, dtype=float)
+            w[tiny] = r.choice([1e-20, 1e-120, 1e-300])
+            rest = [k for k in range(C) if k != tiny]
+            w[rest] = w[rest] / w[rest].sum() * (1.0 - w[tiny])
+        order = "floors-first" if i % 4 else "floors-raised-after-variances"
+        if order == "floors-first":
+            m = make_gmm(w, mu, var, thr=thr)
+        else:
+            # another construction history: variances first, floors raised afterwards (some variances get clamped)
+            m = make_gmm(w, mu, var)
+            m.variance_thresholds = thr if thr is not None else float(np.median(var))
         N = r.choice([1, 2, 5])
         X = gen.gen_data(r, w, mu, var, N, mode)
+        if tiny is not None:
+            # samples sitting on the tiny-weight component and far in the tail of every other one
+            far = np.asarray(mu).copy()
+            X = np.asarray(mu)[tiny][None, :] + 0.01 * np.sqrt(np.asarray(var)[tiny])[None, :] * np.arange(1, N + 1)[:, None]
+            m.means = np.where(np.arange(C)[:, None] == tiny, np.asarray(mu), np.asarray(mu) + 50 * np.sqrt(np.asarray(var)).max() * (1 + np.arange(C))[:, None])
+            mu = np.asarray(m.means)
         N = len(X)
         lwl = np.asarray(m.log_weighted_likelihood(X))
         ll = np.asarray(m.log_likelihood(X))
         terms.append("{| lc_m := %s; lc_x := %s; lc_lwl := %s; lc_ll := %s |}" % (gmm_term(m), cq.mat(X), cq.mat(lwl), cq.vec(ll)))
         floor_active = bool(np.any(m.variances > np.asarray(var) * (1 + 1e-12)))
-        metas.append((C, D, scale, mode, N, floor_active))
-        chk.count(1, key=("corr", C, D, scale, mode, floor_active))
+        metas.append((C, D, scale, mode, N, floor_active, order, tiny is not None))
+        chk.count(1, key=("corr", C, D, scale, mode, floor_active, order, tiny is not None))
         if i < 2:
             chk.sample({"entry": "log_likelihood", "C": C, "D": D, "scale": scale, "mode": mode,
                         "x": hexlist(X), "ll": hexlist(ll)})
